@@ -40,6 +40,7 @@ CONSTANTS
  NodeTeardown = TRUE
  MayVanish = TRUE
  SweepRelays = TRUE
+ TestCells = TRUE
  E2E = TRUE
  Aead = TRUE
  CheckIdent = TRUE
@@ -75,9 +76,9 @@ def world(topology, seed, settings=None):
 
 # weights of the random driver; a profile switches families of actions on
 PROFILES = {
-    "honest": dict(deliver=20, timer=3, send=4, ret=4, create=2, remove=0.3),
+    "honest": dict(deliver=20, timer=3, send=4, ret=4, create=2, remove=0.3, test=1.5),
     "lossy": dict(deliver=14, timer=4, send=3, ret=3, create=2, remove=0.5, lose=3, dup=2),
-    "tamper": dict(deliver=14, timer=2, send=5, ret=4, create=2, tamper=4, header=2, splice=2, inject=2, plain=1),
+    "tamper": dict(deliver=14, timer=2, send=5, ret=4, create=2, tamper=4, header=2, splice=2, inject=2, plain=1, test=1),
     "isolation": dict(deliver=14, timer=2, send=5, ret=4, create=3, remove=0.5, inject=2, advcreate=3, destroy=3,
                       splice=2, plain=1, dup=1, mangle=1.5),
     "handshake": dict(deliver=10, timer=2, create=3, mangle=5, dup=2, lose=1, send=1),
@@ -117,6 +118,7 @@ def random_run(topology, seed, profile, steps, settings=None, max_circuits=3, go
             add("deliver", bool(infl))
             add("timer")
             add("send", bool(ready))
+            add("test", bool(ready))
             add("ret", bool(retable))
             add("create", ncirc < max_circuits)
             add("remove", bool(anyc))
@@ -156,6 +158,9 @@ def random_run(topology, seed, profile, steps, settings=None, max_circuits=3, go
                 o, c = rng.choice(ready)
                 next_p[0] += 1
                 w.send_data(o, c, next_p[0], size=rng.choice([0, 0, 1, 100, 900]))
+            elif name == "test":
+                o, c = rng.choice(ready)
+                w.send_test(o, c, rng.choice([0, 10, 200]), rng.choice([0, 50, 600]))
             elif name == "ret":
                 n, c, p = rng.choice(retable)
                 returned.add(p)
@@ -294,8 +299,11 @@ def spec_projection(st):
     for n, f in items(st["createC"]):
         out["createC"][n] = sorted(({"ident": i, "to": v["to"], "from": v["from"], "peer": v["peer"], "toPeer": v["toPeer"]}
                                     for i, v in items(f)), key=lambda x: x["ident"])
+    tests = set(st["hist"].get("tests", ()))
+    out["testC"] = {}
     for n, f in items(st["pingC"]):
-        out["pingC"][n] = sorted(i for i, _ in items(f))
+        out["pingC"][n] = sorted(i for i, _ in items(f) if i not in tests)
+        out["testC"][n] = sorted(i for i, _ in items(f) if i in tests)
     net = []
     for d in st["net"]:
         if d["t"] == "cell":
